@@ -57,12 +57,14 @@ def run(rep):
     R = c05.run_replica_cases(rep, "C01", {"rounds": 7 if tier == "quick" else 10, "crash": True, "extreme": False},
                               40 if tier == "quick" else 800, rng, broken, extra_pred=append_only_pred)
     sim_cov = None
-    try:
-        import c06
-        if hasattr(c06, "run_sim_cases"):
-            sim_cov = c06.run_sim_cases(rep, "C01", {"tier": tier}, 12 if tier == "quick" else 300, rng.fork(), broken)
-    except ImportError:
-        pass
+    import sim_gen as SG
+    S = SG.run_sim_cases(rep, "C01", {"prefix_ops": 100, "rounds": 8, "shard": 2}, 8 if tier == "quick" else 250, rng.fork(), broken)
+    for mfail in S["mon_fail"]:
+        if mfail["monitor"] in ("C01", "C02", "C03"):
+            R["pred_fail"].append({"case": mfail.get("case"), "meta": mfail.get("meta"), "failed": "cluster simulation, %s monitor: %s" % (mfail["monitor"], mfail["failed"])})
+    sim_cov = {"schedules": len(S["cases"]), "mismatches": len(S["mm"]),
+               "monitor_failures": len([m for m in S["mon_fail"] if m["monitor"] in ("C01", "C02", "C03")]),
+               "what": "N real replicas vs Model/Sim.v on adversarial schedules (partitions, equivocating Byzantine leader, forged/stale votes, crashes, restarts, sync) + synchronous suffix; monitors: all nodes' committed payloads agree per block number, consecutive stores, one certified payload per number, one commit vote per key and view"}
     c05.report(rep, "C01", po, R, broken,
                "single-replica scenarios as in C05 plus crashes at persist points (both outcomes) and restarts: outcome, ordered effects and snapshot compared per step; monitors: blocks handed to storage are consecutive, never replaced; cluster simulation (when present): all nodes' committed payloads agree per block number")
     if sim_cov:
